@@ -14,6 +14,8 @@ KEc == AsymKey("p256a", 1, NONE, NONE)
 KBogus == AsymKey("rsa2048a", 1, "bogus", NONE)
 KOctBogus == OctKey(32, "a", "bogus", NONE)
 
+OtherKey(k) == CASE k.kty = "oct" -> [k EXCEPT !.var = "b"] [] k.kty = "RSA" -> AsymKey("rsa2048b", 0, NONE, NONE)
+                 [] OTHER -> AsymKey("p256b", 0, NONE, NONE)
 Past == <<BIAS, 405, 1000000>>       \* before T0
 Future == <<BIAS, 406, 0>>           \* after T0
 Good(k, a) == Tok(a, <<>>, <<StrM("iss", "me")>>, Sig("valid", a, k))
@@ -33,7 +35,7 @@ BadToks(k, a) ==
     HAlg(g, NONE), HAlg(g, "#int"), HAlg(g, "#null"), HAlg(g, "#arr"), HAlg(g, "bogus"), HAlg(g, "hs256"), HAlg(g, "none"),
     PCls(g, "notb64"), PCls(g, "notjson"), PCls(g, "len1mod4"), PCls(g, "empty"), PCls(g, "scalar"),
     WithSig(g, EmptySig), WithSig(g, Sig("flipbit", a, k)), WithSig(g, Sig("garbage", a, k)), WithSig(g, Sig("notb64", a, k)),
-    WithSig(g, Sig("trunc", a, k)), WithSig(g, Sig("valid", a, [k EXCEPT !.var = "b"])),
+    WithSig(g, Sig("trunc", a, k)), WithSig(g, Sig("valid", a, OtherKey(k))),
     HAlg(WithSig(g, Sig("valid", "HS512", OctKey(64, "a", NONE, NONE))), "HS512"),
     WithClm(g, <<IntM("exp", Past)>>), WithClm(g, <<IntM("nbf", Future)>>),
     WithClm(g, <<StrM("exp", "soon")>>), WithClm(g, <<<<"nbf", "bool", "true", W0>>>>),
